@@ -38,10 +38,10 @@ from ..gen import sheets as G
 from ..gen import sugar as S
 
 MANIFEST = dict(
-    text="Proof (partial): Lean theorems over a hand model of the state that could carry history — logger.py as a stack machine (withCtx_balanced, exec_den, stack_restored, history_stack_restored, observed_history_free: for every nesting/sequence of `with logging_context` blocks, failing or not, the stacks are restored and what the observed call raises/logs does not depend on the history; induction over programs), the fresh-id source (invented_never_reused: Nodup along any sequence of calls sharing an injective source; given_ids_verbatim; renaming_class + induced_bijective + canon_run_independent: two runs differ by a bijection on invented ids and first-occurrence canonicalisation decides that class), UUIDDict (generate_idem, record_after_generate_noop, validate_idem) and C13_model_partial combining them for all histories. Thin by construction: toRows_idem / toRows_scratch_free (the DFS is an arbitrary function; the theorem only says the reset makes the scratch irrelevant) and tables_agree (shape of __enter__/__exit__/add/pop and of to_rows' reset, re-read from the source by AST). The deciding half is a differential run of the REAL code: each observed call (create_flows on csv/xlsx/json files, flows_to_sheets, convert_to_json, save_data_sheets, from_dict().render(), to_rows) in a fresh subprocess vs at the end of random histories of 1-8 other calls (other workbooks, other tag filters, calls failing with exceptions / CRITICAL exits thrown through logging_context, render/to_rows interleavings) in a used process vs 8 (quick) / 64 (thorough) PYTHONHASHSEEDs, outputs compared after renaming invented uuids by first occurrence and by an explicit two-way bijection check; plus an introspective global-state audit after every call (every module-level value, every default argument, every pydantic field default of rpft.*, the logging stacks, logger configuration, cwd/sys.path/environ) against the import-time snapshot.",
+    text="Proof (PARTIAL): Lean theorems over a hand model of the state that could carry history. (a) logger.py as a stack machine: withCtx_balanced, exec_den, stack_restored, history_stack_restored, observed_history_free — for every nesting/sequence of `with logging_context` blocks, failing or not, both module-global lists are restored and what the observed call raises/logs does not depend on the history (mutual induction over programs; leaky_exit_not_restored shows the theorem is about THIS __exit__). (b,c) the id source: invented_never_reused (Nodup along any sequence of calls sharing an injective source), given_ids_verbatim, renaming_class + induced_bijective + canon_run_independent (two runs differ by a bijection on invented ids; first-occurrence canonicalisation decides that class). (d) UUIDDict: generate_idem, record_after_generate_noop, validate_idem, render_toRows_commute (hypothesis 'every reference carries its uuid' is forced: render_toRows_commute_needs_given = known finding F-C13-a). C13_model_partial combines them: the model process is history-free for all histories. THIN by construction: toRows_idem / toRows_scratch_free (the export DFS is an arbitrary function; they only say the reset makes the scratch irrelevant), tables_agree (shape of add/pop/__enter__/__exit__ and of to_rows' reset re-read from the source by AST on every run). The deciding half is a differential run of the REAL code: each observed call (create_flows on csv/xlsx/json files, save_data_sheets, convert_to_json, flows_to_sheets, from_dict().render()/to_rows()/validate() interleavings, compile-then-export) in a fresh subprocess vs at the end of random histories of 1-8 other calls (other workbooks, other tag filters, calls failing with exceptions / CLI-style CRITICAL exits thrown through logging_context, repeats) in a used process vs 8 (quick) / 64 (thorough) PYTHONHASHSEEDs; outputs (result, exception, log records with their processing stack) compared after renaming invented uuids by first occurrence AND by an explicit two-way bijection check; invented ids never shared between runs/objects, given ids verbatim; plus an introspective global-state audit after every call (every module-level value, default argument, pydantic field default of rpft.*, the logging stacks, logger configuration, cwd/sys.path/environ; ~385 items) against the import-time snapshot.",
     ref="§5 C13",
-    note="PARTIAL: hash randomisation, import-time side effects, uuid4 entropy and filesystem enumeration order cannot be exhibited by a Lean model; they are carried by the differential runs only. Trusts: Lean kernel; the runner (harness/c13_runner.py), its audit fingerprint and the canonicaliser (tied to the proved `canon` by det.canon); CPython `with` contract. Known finding F-C13-a (render() writes invented uuids into group/flow references that had none, so a later to_rows() exports an obj_id that an earlier one does not) is exercised deterministically outside the main stream.",
-    technique="Lean 4 proof (induction over programs / shapes / dictionaries) + fresh-vs-used-process differential execution with introspective global-state audit and PYTHONHASHSEED sweep",
+    note="PARTIAL: hash randomisation, import-time side effects, uuid4 entropy and file-system enumeration order cannot be exhibited by a Lean model; they are carried by the differential runs only (C13_full is kept as a predicate of an arbitrary process and proved for the model process). Trusts: Lean kernel; the runner harness/c13_runner.py, its audit fingerprint and the canonicaliser (tied to the proved `canon` by det.canon); CPython `with` contract. Known finding F-C13-a (render() writes invented uuids into group/flow references that had none, so a later to_rows() exports an obj_id that an earlier one does not) is exercised deterministically outside the main stream.",
+    technique="Lean 4 proof (mutual induction over programs, induction over shapes / dictionaries) + fresh-vs-used-process differential execution with introspective global-state audit and PYTHONHASHSEED sweep",
 )
 
 PY = "/venv/bin/python"
@@ -561,10 +561,10 @@ def run(ck: core.Check):
 def _run(ck, quick, workdir):
     drv = core.Driver()
     rng = ck.rng
-    n_cases = 192 if quick else 1600
+    n_cases = 192 if quick else 960
     group = 4
     seeds = list(range(1, 9)) if quick else list(range(1, 65))
-    n_seed_cases = 96 if quick else 320
+    n_seed_cases = 96 if quick else 192
 
     phases = {}
     t0 = time.time()
@@ -627,6 +627,7 @@ def _run(ck, quick, workdir):
     phases["seeds"] = round(time.time() - t0, 1)
     # ---- compare
     n_audit_calls = 0
+    diagnoses = 0   # detailed re-runs (one extra process each) are limited to the first few failures
     for c in cases:
         spec = c["observed"]
         F = fresh[c["id"]]
@@ -643,13 +644,14 @@ def _run(ck, quick, workdir):
         problems = []   # (what, detail, replay-history)
         # per-call oracles on every call of both runs (audit, reuse, idempotence/commutation, verbatim ids)
         for w, d in call_problems(spec, F):
-            problems.append((w + " (fresh process)", d, []))
+            problems.append((w + " (fresh process)", d, [], spec))
         for k, (hspec, hres) in enumerate(zip(c["history"] + [spec], used[c["id"]])):
             n_audit_calls += 1
             for w, d in problems_of(hspec, hres):
                 if hspec is not spec and w.startswith("render / to_rows") and is_f_c13_a(hspec, [(w, d)]):
                     continue
-                problems.append((w + f" (call {k} of the used process)", d, c["history"][:k] if hspec is spec else c["history"][:k + 1]))
+                # replay: the offending call as the observed one, preceded by the calls of its case
+                problems.append((w + f" (call {k} of the used process)", d, c["history"][:k], hspec))
         # history differential
         cF, cU = canon_out(spec, F), canon_out(spec, U)
         if cF != cU:
@@ -668,23 +670,30 @@ def _run(ck, quick, workdir):
         for s, R in by_seed.get(c["id"], []):
             ck.count("hash_seed_runs")
             if sha_of(spec, R) != shaF:
-                R2 = run_runner([{"id": 0, "calls": [raw(spec)]}], workdir, hashseed=s)["results"][0]["calls"][0]
-                bp = bijection_problems({"r": F["result"], "e": F["exc"], "l": F["logs"]}, {"r": R2["result"], "e": R2["exc"], "l": R2["logs"]}, given_ids(spec))
+                bp = []
+                if diagnoses < 3:
+                    diagnoses += 1
+                    R2 = run_runner([{"id": 0, "calls": [raw(spec)]}], workdir, hashseed=s)["results"][0]["calls"][0]
+                    bp = bijection_problems({"r": F["result"], "e": F["exc"], "l": F["logs"]}, {"r": R2["result"], "e": R2["exc"], "l": R2["logs"]}, given_ids(spec))
                 problems.append((f"the observed call answers differently under PYTHONHASHSEED={s}",
-                                 {"first_difference": (bp or ["(canonical forms differ; not reproduced in a second process under this seed)"])[0],
-                                  "fresh": cF[:300], "seeded": R.get("canon_head")}, []))
+                                 {"first_difference": (bp or ["(canonical forms differ)"])[0],
+                                  "hashseed": s, "fresh": cF[:300], "seeded": R.get("canon_head")}, []))
                 break
             if set(R["invented"]) & set(F["invented"]):
                 problems.append(("an invented uuid is shared by two runs", sorted(set(R["invented"]) & set(F["invented"]))[0], []))
             for w, d in problems_of(spec, R)[:1]:
                 problems.append((w + f" (PYTHONHASHSEED={s})", d, []))
         if problems:
-            w, d, hist = problems[0]
+            w, d, hist = problems[0][:3]
+            culprit = problems[0][3] if len(problems[0]) > 3 else spec
             if is_f_c13_a(spec, [(p[0].split(" (")[0], p[1]) for p in problems if isinstance(p[1], str)]) and len(problems) == len([p for p in problems if p[0].startswith("render / to_rows")]):
                 ck.known("F-C13-a", "render() writes invented uuids into references that had none; to_rows() afterwards differs", None)
                 continue
-            replay = {"history": hist, "observed": spec, "detail": d}
-            if "after a history" in w:
+            replay = {"history": hist, "observed": culprit, "detail": d}
+            if isinstance(d, dict) and "hashseed" in d:
+                replay["hashseed"] = d["hashseed"]
+            if "after a history" in w and diagnoses < 3:
+                diagnoses += 1
                 # isolate: this case alone in a new used process, then drop history calls
                 def fails(h, spec=spec, shaF=shaF):
                     r = run_runner([{"id": 0, "calls": h + [spec]}], workdir)["results"][0]["calls"][-1]
@@ -776,6 +785,12 @@ def replay(path):
         for k, (h, r) in enumerate(zip(hist + [spec], calls)):
             print(f"call {k} {h['op']}: exc={r['exc']!r} audit={r['audit'][:2]} problems={call_problems(h, r)[:2]}")
         print("fresh problems:", call_problems(spec, F)[:3])
+        if rp.get("hashseed") is not None:
+            R = run_runner([{"id": 0, "calls": [raw(spec)]}], wd, hashseed=rp["hashseed"])["results"][0]["calls"][0]
+            same_seed = canon_out(spec, F) == canon_out(spec, R)
+            print(f"fresh == fresh under PYTHONHASHSEED={rp['hashseed']} (canonical):", same_seed)
+            if not same_seed:
+                print(" first difference:", bijection_problems({"r": F["result"], "e": F["exc"], "l": F["logs"]}, {"r": R["result"], "e": R["exc"], "l": R["logs"]}, given_ids(spec))[:2])
         same = canon_out(spec, F) == canon_out(spec, U)
         print("fresh == used (canonical):", same)
         if not same:
